@@ -23,13 +23,13 @@ where
       let sctl = StreamController::new(s);
       let emitted = Arc::new(RwLock::new(false));
 
-      {
+      let obs_source = {
         let emitted = Arc::clone(&emitted);
         let sctl_next = sctl.clone();
         let sctl_error = sctl.clone();
         let sctl_complete = sctl.clone();
 
-        source.inner_subscribe(sctl.new_observer(
+        sctl.new_observer(
           move |serial, x| {
             if *emitted.read().unwrap() {
               sctl_next.upstream_abort_observe(&serial);
@@ -41,15 +41,15 @@ where
             sctl_error.sink_error(e);
           },
           move |serial| sctl_complete.sink_complete(&serial),
-        ));
+        )
       };
 
-      {
+      let obs_target = {
         let emitted = Arc::clone(&emitted);
         let sctl_next = sctl.clone();
         let sctl_error = sctl.clone();
         let sctl_complete = sctl.clone();
-        target.inner_subscribe(sctl.new_observer(
+        sctl.new_observer(
           move |_, x| {
             *emitted.write().unwrap() = true;
             sctl_next.sink_next(x);
@@ -58,8 +58,12 @@ where
             sctl_error.sink_error(e);
           },
           move |_| sctl_complete.sink_complete_force(),
-        ));
-      }
+        )
+      };
+      // both observers exist before either input is subscribed, so an input
+      // that terminates inside subscribe cannot end the stream early
+      source.inner_subscribe(obs_source);
+      target.inner_subscribe(obs_target);
     })
   }
 }
